@@ -13,6 +13,9 @@
 (*   <<"q", n, d>>            rational constant n/d (normalised, see Rat)   *)
 (*   <<"ninf">>  <<"pi">>     the constants -Infinity and pi               *)
 (*   <<"x", i>>               the i-th independent variable                *)
+(*   <<"z", i, id>>           a scalar RE-ACTIVATED as variable i (a fresh  *)
+(*                            leaf: its value is whatever the scalar held   *)
+(*                            when it was re-declared, id names the leaf)   *)
 (*   <<"u", f, e>>            unary function f in                          *)
 (*        neg sin cos tan sinh cosh tanh exp log erf gamma lgamma digamma  *)
 (*        trigamma abs sgn                                                 *)
@@ -39,6 +42,7 @@ Half      == <<"q", 1, 2>>
 NInf      == <<"ninf">>
 Pi        == <<"pi">>
 X(i)      == <<"x", i>>
+Z(i, id)  == <<"z", i, id>>
 
 Tag(e)    == e[1]
 IsQ(e)    == e[1] = "q"
@@ -115,6 +119,7 @@ SumTerms(s) == IF s = <<>> THEN Zero
 RECURSIVE Depends(_, _)
 Depends(e, i) ==
   CASE e[1] = "x"   -> e[2] = i
+    [] e[1] = "z"   -> e[2] = i
     [] e[1] = "u"   -> Depends(e[3], i)
     [] e[1] = "b"   -> Depends(e[3], i) \/ Depends(e[4], i)
     [] e[1] = "ite" -> Depends(e[2], i) \/ Depends(e[3], i) \/ Depends(e[4], i) \/ Depends(e[5], i)
@@ -152,6 +157,7 @@ DU(f, a) ==
 RECURSIVE D(_, _)
 D(e, i) ==
   CASE e[1] = "x" -> IF e[2] = i THEN One ELSE Zero
+    [] e[1] = "z" -> IF e[2] = i THEN One ELSE Zero     \* shares the derivative slot of variable i
     [] e[1] = "u" ->
          LET da == D(e[3], i) IN
          IF IsZero(da) THEN Zero ELSE Mul(DU(e[2], e[3]), da)
